@@ -170,6 +170,9 @@ type Case struct {
 	// stream-like (reader / writer-to / *csv.Reader source; writer-backed destination).
 	S Script `json:"s"`
 	O Script `json:"o"`
+	// Warm: number of earlier calls made on the SAME codec instance (same input, throw-away
+	// destination) before the judged call, which must behave exactly like the first one.
+	Warm int `json:"warm,omitempty"`
 }
 
 func textFeatures(t string) string {
@@ -331,6 +334,9 @@ func preState(c *Case, n int) string {
 }
 
 func (c *Case) fp(pre string) string {
+	if c.Warm > 0 {
+		pre += fmt.Sprintf("+warm%d", c.Warm)
+	}
 	return strings.Join([]string{textFeatures(string(c.Text)), c.Dir, c.Kind, pre, c.Opts.set(), c.S.class(len(c.Text)), c.O.class(len(c.Text))}, "|")
 }
 
@@ -382,6 +388,12 @@ func runConsume(m *mon.M, c *Case) {
 	}
 	r := newReader([]byte(text), c.S)
 	cons := runtime.CSVConsumer(c.Opts.sut()...)
+	for i := 0; i < c.Warm; i++ {
+		if wd, ok := mkDest(c.Kind, 0, 0, "", false, Script{}); ok {
+			_, _ = mon.Catch(func() { _ = cons.Consume(newReader([]byte(text), Script{}), wd.v) })
+			m.Class("codec-instance-reused")
+		}
+	}
 	var err error
 	pv, st := mon.Catch(func() { err = cons.Consume(r, d.v) })
 	m.NT(c.fp(pre))
@@ -626,6 +638,12 @@ func runProduce(m *mon.M, c *Case) {
 	}
 	w := newWriter(c.S)
 	prod := runtime.CSVProducer(c.Opts.sut()...)
+	for i := 0; i < c.Warm; i++ {
+		if ws, ok := mkSource(c.Kind, []byte(text), recs, Script{}); ok {
+			_, _ = mon.Catch(func() { _ = prod.Produce(newWriter(Script{}), ws.v) })
+			m.Class("codec-instance-reused")
+		}
+	}
 	var err error
 	pv, st := mon.Catch(func() { err = prod.Produce(w, s.v) })
 	m.NT(c.fp(""))
